@@ -161,8 +161,11 @@ def run_kani_group(ctx, group):
         return ()
 
     # run all in one pool but with per-harness timeout: wrap
+    # a group may ask for more address space per solver and fewer solvers at once (memory-bound groups)
+    g_mem = max(ctx.mem_gb, float(gcfg.get("mem_gb", 0)))
+    g_jobs = min(ctx.jobs, int(gcfg.get("max_jobs", ctx.jobs)))
     results = run_pool_var(hdir, target, sel, logdir, lambda h: harness_timeout(pcfg, h, ctx.tier),
-                           ctx.mem_gb, ctx.jobs, kargs, cbmc_args_for, progress, gcfg.get("recursion_caps", ()))
+                           g_mem, g_jobs, kargs, cbmc_args_for, progress, gcfg.get("recursion_caps", ()))
     for r in results:
         if r.status == "inconclusive":
             ctx.inconclusive.append("%s: %s" % (r.harness.short, r.reason))
